@@ -1029,7 +1029,6 @@ func dominatingIfBlock(b *ssa.BasicBlock) *ssa.BasicBlock {
 	return b
 }
 
-
 // closureHasNoEffect: no store outside its own locals, no map update, no call of a module function other than logging.
 func closureHasNoEffect(fn *ssa.Function, depth int) bool {
 	if fn == nil || fn.Blocks == nil || depth > 2 {
